@@ -132,6 +132,7 @@ ENTRIES = {
     "file:mt_executor": dict(
         kind="std", file="nexosim/src/executor/mt_executor.rs",
         allowed={"slab::Slab::vacant_entry": 2, "slab::Slab::try_remove": 1, "slab::Slab::drain": 1, "std::vec::Vec::drain": 1},
+        equiv={"std::vec::Vec::pop": "std::vec::Vec::drain"},
         why="cancel tokens: registered at spawn, removed by the future's drop, drained by the executor's drop; worker handles drained (joined) in drop",
     ),
     "file:injector": dict(
